@@ -310,6 +310,14 @@ let () =
         (match report_of p0 (List.rev !exs) !yf (List.rev !txs) with
          | Inl es -> Printf.printf "{\"id\":%s,\"ok\":false,\"errors\":%s}\n" (js !id) (jlist jrerr es)
          | Inr r -> Printf.printf "{\"id\":%s,\"ok\":true,\"years\":%s,\"holdings\":%s}\n" (js !id) (jlist jyear r.r_years) (jlist jhold r.r_holdings))
+    | ["RUN"; "pipeline"; h] ->
+        (* from the ledger's text to its report in one call of the extracted model: reader, decimals, rates (FX lines), matcher, summaries *)
+        let text = text_of_string (unhex (String.sub h 1 (String.length h - 1))) in
+        (match pipeline valid_cur !fxc (List.rev !exs) !yf text with
+         | Inl (PParse (n, e)) -> Printf.printf "{\"id\":%s,\"ok\":false,\"stage\":\"parse\",\"line\":%d,\"why\":%s}\n" (js !id) (int_of_nat n) (js (perr_s e))
+         | Inl (PFx (MissingFx (c, y, m))) -> Printf.printf "{\"id\":%s,\"ok\":false,\"stage\":\"fx\",\"cur\":%s,\"year\":%s,\"month\":%s}\n" (js !id) (js (string_of_text c)) (string_of_z y) (string_of_z m)
+         | Inl (PCalc es) -> Printf.printf "{\"id\":%s,\"ok\":false,\"stage\":\"calc\",\"errors\":%s}\n" (js !id) (jlist jrerr es)
+         | Inr r -> Printf.printf "{\"id\":%s,\"ok\":true,\"years\":%s,\"holdings\":%s}\n" (js !id) (jlist jyear r.r_years) (jlist jhold r.r_holdings))
     | ["RUN"; "dates"; lo; hi] ->
         (* for every day number in [lo,hi]: civil date, validity, round trip, tax year *)
         let lo = int_of_string lo and hi = int_of_string hi in
